@@ -42,3 +42,54 @@ Proof.
     assert (existsb (Z.eqb x) r = true) by (apply existsb_exists; exists x; split; [assumption|apply Z.eqb_refl]). congruence. }
   apply H. reflexivity.
 Qed.
+
+(* ---- the ORDER of the pieces: every layer's write_binary / read_binary body, statement by statement ---- *)
+Local Open Scope string_scope.
+Definition lookup (n : string) (t : list (string * list string)) : list string :=
+  match find (fun p => String.eqb (fst p) n) t with Some (_, v) => v | None => ["?:missing"] end.
+
+Definition layer_name (l : layer) : string :=
+  match l with
+  | LStrided _ _ => "strided" | LMorton _ _ _ => "morton" | LHilbert _ => "hilbert" | LClamp => "clamp" | LBackup => "backup"
+  | LShuffle _ => "shuffle" | LAffine => "affine" | LCast _ => "covariant_cast" | LDeref => "dereference"
+  | LLinear _ => "linear" | LNearest _ => "nearest_neighbour"
+  end.
+
+(* what one statement of a write_binary contributes to the stream, in the model's terms *)
+Definition item_bytes (l : layer) (k : kind) (g : cfg) (inner : list Z) (it : string) : list Z :=
+  let t := match layer_tag l with Some t => t | None => 0%Z end in
+  if String.eqb it "H" then hdr t else if String.eqb it "F" then ftr t
+  else if String.eqb it "B:m_backend" || String.eqb it "B:m_storage" then inner
+  else match g with
+       | CSizes s => if String.eqb it "W:m_sizes" then flat_map u64 s else []
+       | CBox lo hi => if String.eqb it "W:m_min" then encs (k_tc k) lo else if String.eqb it "W:m_max" then encs (k_tc k) hi else []
+       | CBackup lo hi d => if String.eqb it "W:m_min" then encs (k_tc k) lo else if String.eqb it "W:m_max" then encs (k_tc k) hi
+                            else if String.eqb it "W:m_default" then encs (k_tv k) d else []
+       | CAffine m => if String.eqb it "W:m_transform" then encs (k_tc k) m else []
+       | CUnit => []
+       end.
+
+(* the model writer of a layer emits exactly the pieces the source's write_binary lists, in the source's order *)
+Theorem write_order_is_the_source l k g inner bs : dump_layer l k g inner = Some bs ->
+  bs = flat_map (item_bytes l k g inner) (lookup (layer_name l) io_write_seq).
+Proof.
+  destruct l; destruct g; cbn [dump_layer]; try discriminate; intros E; injection E as <-;
+    unfold wrap_tag; cbn; rewrite ?app_nil_r, <- ?app_assoc; reflexivity.
+Qed.
+
+(* the readers: header, the configuration members in the order they were written, the backend, footer; and the values
+   read are handed to the constructor in the order they were read *)
+Definition reads_match_writes (n : string) : bool :=
+  let w := lookup n io_write_seq in
+  let r := lookup n io_read_seq in
+  let tag (s : string) := match s with String c _ => String c EmptyString | EmptyString => EmptyString end in
+  let body := removelast r in
+  let ctor := last r "" in
+  let vars := map (fun s => substring 2 (String.length s - 2) s) (filter (fun s => String.eqb (tag s) "R" || String.eqb (tag s) "B") body) in
+  (* same shape: W <-> R position by position *)
+  (if list_eq_dec string_dec (map (fun s => if String.eqb (tag s) "W" then "R" else tag s) w) (map tag body) then true else false) &&
+  String.eqb ctor ("C:" ++ String.concat "," vars).
+Definition seq_layers : list string :=
+  ["affine"; "backup"; "clamp"; "constant"; "covariant_cast"; "dereference"; "hilbert"; "identity"; "linear"; "morton"; "nearest_neighbour"; "shuffle"; "strided"].
+Theorem read_order_is_write_order : forallb reads_match_writes seq_layers = true.
+Proof. vm_compute. reflexivity. Qed.
